@@ -14,6 +14,7 @@ import (
 	"io"
 	"os"
 	"sort"
+	"strings"
 	"sync"
 	"sync/atomic"
 	"testing"
@@ -53,6 +54,7 @@ type run struct {
 	events   []map[string]any
 	activity atomic.Int64
 	named    map[string]int
+	stormed  bool // the last settle saw more than 20 000 publishes / picker calls / clock readings: the trackers keep each other busy
 	live     map[string]*tracker // trackers that hear what is published (started, not yet cancelled); guarded by mu
 	phase    atomic.Value
 }
@@ -183,7 +185,9 @@ func (r *run) caughtUp() bool {
 
 func (r *run) settle(q time.Duration) bool {
 	begin := time.Now()
-	deadline := begin.Add(20 * time.Second)
+	a0 := r.activity.Load()
+	deadline := begin.Add(12 * time.Second)
+	defer func() { r.stormed = r.activity.Load()-a0 > 20000 }()
 	for time.Now().Before(deadline) {
 		if !r.caughtUp() && time.Since(begin) < 3*time.Second {
 			time.Sleep(2 * time.Millisecond)
@@ -212,6 +216,11 @@ func drive(idx int, c scase, q time.Duration) (*run, string, string) {
 	log.SetOutput(io.Discard)
 	muted := map[string]*atomic.Bool{"a": {}, "b": {}, "c": {}}
 	trackers := map[string]*tracker{}
+	defer func() { // whatever way the schedule ends, nothing of it keeps running beside the other schedules
+		for _, tr := range trackers {
+			tr.cancel()
+		}
+	}()
 	ran := map[string]bool{}
 	now := 0
 	sj, _ := json.Marshal(c.Sched)
@@ -318,7 +327,11 @@ func drive(idx int, c scase, q time.Duration) (*run, string, string) {
 			break
 		}
 		if !observe() {
-			return r, "", "the cluster did not come to rest within 20 s"
+			if r.stormed {
+				// NodeTracker.tla's liveness property: the trackers' own steps come to an end after every stimulus
+				return r, "ComesToRest: after stimulus " + s.Op + " " + s.T + " the trackers kept publishing / handling messages for 12 s without a pause", ""
+			}
+			return r, "", "the cluster did not come to rest within 12 s"
 		}
 	}
 	r.phase.Store("end")
@@ -331,7 +344,7 @@ func drive(idx int, c scase, q time.Duration) (*run, string, string) {
 			break
 		}
 		if !observe() {
-			return r, "", "the cluster did not come to rest within 20 s"
+			return r, "", "the cluster did not come to rest within 12 s"
 		}
 	}
 	return r, stuck, ""
@@ -378,7 +391,11 @@ func TestSchedules(t *testing.T) {
 				return
 			}
 			if stuck != "" {
-				res.Fail("X05", "Terminates", stuck, c)
+				sig := "Terminates"
+				if strings.HasPrefix(stuck, "ComesToRest") {
+					sig = "ComesToRest"
+				}
+				res.Fail("X05", sig, stuck, c)
 			}
 			wmu.Lock()
 			for _, ev := range r.events {
